@@ -154,14 +154,10 @@ theorem translated_asyncCallbacks (σ : Env) :
 message receiver and the leader election when configured; the returned channel is served by a goroutine of its own, so the
 caller may ignore it; nothing here waits for the nodes -/
 theorem translated_shutdown (σ : Env) :
-    obs Trans.exShutdown σ =
-      ⟨(if σ "e.source" ≠ 0 then [("e.source.Shutdown", [])] else []) ++
-        (if σ "e.messageReceiver" ≠ 0 then [("e.messageReceiver.Shutdown", [])] else []) ++
-        (if σ "e.leader" ≠ 0 then [("e.leader.Shutdown", [])] else []) ++
-        [("make", [σ "chan struct{}"]), ("go func() { done <- struct{}{} }", [])], some [σ "make#0"], false⟩ := by
+    obs Trans.exShutdown σ = TransExpected.exShutdown σ := by
   by_cases h1 : σ "e.source" = 0 <;> by_cases h2 : σ "e.messageReceiver" = 0 <;> by_cases h3 : σ "e.leader" = 0 <;>
   by_cases h4 : σ "e.source.Shutdown#0" = 0 <;>
-  minigo_simp [Trans.exShutdown, h1, h2, h3, h4]
+  minigo_simp [TransExpected.exShutdown, Trans.exShutdown, h1, h2, h3, h4]
 
 end Translated
 
